@@ -5,6 +5,7 @@ import DdoModel.Engines.Seq
 import DdoModel.Engines.Par
 import DdoModel.Engines.Ex
 import DdoModel.Engines.Viz
+import DdoModel.Engines.ExModel
 /-! Line-protocol driver.  stdin: pairs of lines
       `C <engine> <id> <case tokens…>`
       `I <id> <implementation output tokens…>`
@@ -25,6 +26,7 @@ def dispatch (engine : String) (c i : List String) : Option Res :=
   | "parstress" => parstressEngine c i
   | "ex" => exEngine c i
   | "viz" => vizEngine c i
+  | "exmodel" => exmodelEngine c i
   | _ => none
 
 partial def loop (h : IO.FS.Stream) (out : IO.FS.Stream) : IO Unit := do
